@@ -134,7 +134,93 @@ def case_table(run, i):
                  sample={"segments": list(zip(segs["chromosome"], segs["start"], segs["end"], segs["probes"]))[:5]} if i % 53 == 0 else None)
 
 
-WORKLOADS = {"table": (_n, case_table)}
-_Q = {"segmetrics.do_segmetrics|held": 100, "segmetrics.do_segmetrics[ci-repro]|held": 50, "bintest.do_bintest|held": 100,
+def _n_cli(tier):
+    return 24 if tier == "quick" else 200
+
+
+def case_cli(run, i):
+    """`cnvkit.py segmetrics` / `bintest` on written files: which statistics, alpha, bootstraps, smoothing, skip_low, target_only and
+    which tables reach the function, and that the output file holds the returned table."""
+    import os
+    import shutil
+    from skgenome import tabio
+    from cnvlib import commands as CM
+    from ..monitors import cli_plumb
+    rng = run.rng("cli", i)
+    bins, segs = _table(rng, bintest=(i % 2 == 1))
+    if len(bins["start"]) < 2:
+        return
+    d = os.path.join(run.workdir, f"cli17_{run.shard}_{i}")
+    os.makedirs(d, exist_ok=True)
+    pb, ps, po = os.path.join(d, "S.cnr"), os.path.join(d, "S.cns"), os.path.join(d, "out.tsv")
+    with run.monitor_scope():
+        tabio.write(make_cna(bins), pb)
+        tabio.write(make_cna(segs), ps)
+    if i % 2 == 0:
+        flags = {"--mean": ("location_stats", "mean"), "--median": ("location_stats", "median"), "--mode": ("location_stats", "mode"),
+                 "--t-test": ("location_stats", "p_ttest"), "--stdev": ("spread_stats", "stdev"), "--sem": ("spread_stats", "sem"),
+                 "--mad": ("spread_stats", "mad"), "--mse": ("spread_stats", "mse"), "--iqr": ("spread_stats", "iqr"), "--bivar": ("spread_stats", "bivar"),
+                 "--ci": ("interval_stats", "ci"), "--pi": ("interval_stats", "pi")}
+        names = list(flags)
+        chosen = [names[k] for k in sorted(rng.choice(len(names), int(rng.integers(1, len(names) + 1)), replace=False).tolist())]
+        order = list(rng.permutation(len(chosen)))
+        chosen = [chosen[k] for k in order]
+        alpha, boots = float(rng.choice([0.05, 0.2, 0.5])), int(rng.choice([30, 60]))
+        smooth, low = bool(rng.integers(0, 2)), bool(rng.integers(0, 2))
+        argv = ["segmetrics", pb, "-s", ps, "-o", po, "-a", repr(alpha), "-b", str(boots)] + chosen + (["--smooth-bootstrap"] if smooth else []) + (["--drop-low-coverage"] if low else [])
+        want = {"location_stats": [], "spread_stats": [], "interval_stats": []}
+        for f in chosen:
+            want[flags[f][0]].append(flags[f][1])
+        run.begin_case("cli", i, cls="cli:segmetrics", argv=argv[4:])
+        # the order of the statistics lists is the order of the flags; compare as sets, the rest exactly
+        out = cli_plumb.run_subcommand(run, rt, CM, "do_segmetrics", argv)
+        mon = "cli.segmetrics[plumbing]"
+        wit = {"argv": argv[4:]}
+        if len(out["calls"]) != 1 or isinstance(out["calls"][0][2], Exception):
+            run.violate(mon, "segmetrics-cli-function-not-reached-once", f"do_segmetrics reached {len(out['calls'])} times / raised: {out['raised']!r}", wit)
+        else:
+            a, k, res = out["calls"][0]
+            names_ = ["cnarr", "segarr", "location_stats", "spread_stats", "interval_stats", "alpha", "bootstraps", "smoothed", "skip_low"]
+            got = dict(zip(names_, a))
+            got.update(k)
+            bad = None
+            for key in ("location_stats", "spread_stats", "interval_stats"):
+                if sorted(got.get(key) or []) != sorted(want[key]):
+                    bad = (key, sorted(got.get(key) or []), sorted(want[key]))
+            for key, val in (("alpha", alpha), ("bootstraps", boots), ("smoothed", smooth), ("skip_low", low)):
+                if got.get(key) != val:
+                    bad = (key, got.get(key), val)
+            if len(got["cnarr"]) != len(bins["start"]) or len(got["segarr"]) != len(segs["start"]):
+                bad = ("tables", (len(got["cnarr"]), len(got["segarr"])), (len(bins["start"]), len(segs["start"])))
+            if bad:
+                run.violate(mon, f"segmetrics-cli-passes-wrong-{bad[0]}", f"{bad[0]}: command line asks for {bad[2]!r}, do_segmetrics received {bad[1]!r}", wit)
+            else:
+                fcols = [c for c in res.data.columns if c not in ("chromosome", "start", "end", "gene", "probes")]
+                msg = cli_plumb.file_matches_table(cli_plumb.read_tsv(po), res.data, float_cols=fcols, opt_int=("probes",)) if os.path.exists(po) else "no output file"
+                if msg:
+                    run.violate(mon, "segmetrics-cli-file-differs-from-result", msg, wit)
+                else:
+                    run.held(mon, "cli-segmetrics")
+    else:
+        alpha, tonly, withseg = float(rng.choice([0.005, 0.05, 0.5])), bool(rng.integers(0, 2)), bool(i % 4 == 1)
+        argv = ["bintest", pb, "-a", repr(alpha), "-o", po] + (["-t"] if tonly else []) + (["-s", ps] if withseg else [])
+        run.begin_case("cli", i, cls="cli:bintest", argv=argv[2:])
+        r = cli_plumb.check_cli(run, rt, CM, "do_bintest", argv, dict(alpha=alpha, target_only=tonly, segments=withseg), "bintest", truthy=("segments",))
+        if r is not None:
+            got, res, wit = r
+            if len(got["cnarr"]) != len(bins["start"]) or (withseg and len(got["segments"]) != len(segs["start"])):
+                run.violate("cli.bintest[plumbing]", "bintest-cli-passes-wrong-tables", "the tables reaching do_bintest are not the files' tables", wit)
+            else:
+                msg = cli_plumb.file_matches_table(cli_plumb.read_tsv(po), res.data, float_cols=("log2", "p_bintest"), opt_int=()) if os.path.exists(po) else "no output file"
+                if msg:
+                    run.violate("cli.bintest[plumbing]", "bintest-cli-file-differs-from-result", msg, wit)
+                else:
+                    cli_plumb.held(run, "bintest", "cli-bintest")
+    shutil.rmtree(d, ignore_errors=True)
+    run.end_case(fp=rt.fingerprint([bins["log2"][:30], i], 12), nontrivial=True)
+
+
+WORKLOADS = {"table": (_n, case_table), "cli": (_n_cli, case_cli)}
+_Q = {"cli.segmetrics[plumbing]|held": 8, "cli.bintest[plumbing]|held": 8, "segmetrics.do_segmetrics|held": 100, "segmetrics.do_segmetrics[ci-repro]|held": 50, "bintest.do_bintest|held": 100,
       "bintest.p_adjust_bh|held": 250, "CopyNumArray.residuals|held": 100}
 QUOTAS = {"quick": _Q, "thorough": _Q}
